@@ -92,7 +92,7 @@ pub fn check_json(ctx: &Ctx, frame: &[u8]) -> Check {
 }
 
 pub fn run(ctx: &Ctx) {
-    ctx.set_rule("the finite shape space (DF 0..31 x CA/CF x TC 0..31 x subtype x ADS-B version x Comm-B register template x extreme-fill mode; list in vcheck/src/frames.rs::base_shapes) is enumerated completely with K random fills per shape, plus everything the C01 generators accept. Oracle: serde_json::to_string is Ok, one line, parses as one object with a duplicate-rejecting reader, Debug shows no NaN/inf, df/icao24 equal the DF bits and the address carried (AA field or independent CRC overlay), TimedMessage keeps the frame as hex and re-decoding that hex gives the same fields; batches of frames also go through the real decode1090 binary (which unwraps to_string) in argument and file mode: no abort, the library's JSON line per frame / a well-formed record that keeps timestamp, frame and every decoded field; related frames in several orders on one thread serialise identically each time; every base shape and generated batches of accepted frames are served to the real jet1090 binary over TCP (it ignores a failed to_string): each must be printed (stdout and --output file, with and without a df filter that rejects part of the batch) as exactly one well-formed line that keeps the frame and every decoded field, rejected records leave no trace, and the process must survive. Non-trivial = accepted frame (distinct by bytes); distinct accepted shapes are reported separately.");
+    ctx.set_rule("the finite shape space (DF 0..31 x CA/CF x TC 0..31 x subtype x ADS-B version x Comm-B register template x extreme-fill mode; list in vcheck/src/frames.rs::base_shapes) is enumerated completely with K random fills per shape, plus everything the C01 generators accept. Oracle: serde_json::to_string is Ok, one line, parses as one object with a duplicate-rejecting reader, Debug shows no NaN/inf, df/icao24 equal the DF bits and the address carried (AA field or independent CRC overlay), TimedMessage keeps the frame as hex and re-decoding that hex gives the same fields; batches of frames also go through the real decode1090 binary (which unwraps to_string) in argument and file mode: no abort, the library's JSON line per frame / a well-formed record that keeps timestamp, frame and every decoded field; related frames in several orders on one thread serialise identically each time; every base shape and generated batches of accepted frames are served to the real jet1090 binary over TCP (it ignores a failed to_string): each must be printed (stdout and --output file, with and without a df filter that rejects part of the batch) as exactly one well-formed line that keeps the frame and every decoded field, rejected records leave no trace, the stored history of aircraft that identified themselves is served by /track without duplicate keys, the 24 longest Comm-B records of 200 000 generated ones come through when two receivers hear them, and the process must survive. Non-trivial = accepted frame (distinct by bytes); distinct accepted shapes are reported separately.");
     ctx.assume("address of AP formats = remainder of the frame modulo the generator polynomial (independent CRC)");
     // 1. exhaustive shape space x K fills
     let shapes = base_shapes();
@@ -192,6 +192,7 @@ pub fn run(ctx: &Ctx) {
                 }
             }
             ctx.class_n("base shapes through the real jet1090 binary", all.len() as u64);
+            ctx.judge(check_e2e_long(ctx, &env));
             let n = ctx.tier.pick(32u32, 480u32);
             (0..16u32).into_par_iter().for_each(|s| {
                 let filt = prop_oneof![1 => Just(None), 2 => proptest::collection::vec(proptest::sample::select(vec![0u16, 4, 5, 11, 16, 17, 18, 20, 21]), 1..4).prop_map(Some)];
@@ -324,10 +325,12 @@ pub fn check_e2e_filtered(ctx: &Ctx, env: &crate::e2e::Env, frames: &[Vec<u8>], 
     let accepted: Vec<Vec<u8>> = frames.iter().filter(|f| Message::try_from(f.as_slice()).is_ok() && seen.insert((*f).clone())).cloned().collect();
     let sc = crate::e2e::Scenario {
         references: vec![Some((48.0, 7.0))],
-        sends: accepted.iter().enumerate().map(|(i, f)| crate::e2e::Send { source: 0, frame: f.clone(), pause_ms: (i % 4 == 3) as u32, cut: 0 }).collect(),
+        sends: accepted.iter().enumerate().map(|(i, f)| crate::e2e::Send { source: 0, frame: f.clone(), pause_ms: (i % 4 == 3) as u32, cut: 0, clock_offset_s: None }).collect(),
         dedup_ms: 40,
         df_filter,
         with_file: true,
+        // the stored history of the aircraft that identified themselves is read back as the server writes it
+        track: accepted.iter().filter(|f| matches!(f[0] >> 3, 17 | 18) && (1..=4).contains(&(f[4] >> 3))).take(3).map(|f| get_bits(f, 8, 24) as u32).collect(),
         ..Default::default()
     };
     let rep = json!({"kind": "e2e", "scenario": crate::e2e::scenario_json(&sc)});
@@ -364,7 +367,16 @@ pub fn replay_e2e(ctx: &Ctx, env: &crate::e2e::Env, sc: &crate::e2e::Scenario, r
             let tag = shape_tag(&s.frame);
             return Err(fail(&format!("record-not-printed:{tag}"), format!("jet1090 printed nothing for the accepted frame {h} ({})", serde_json::to_string(&m).unwrap_or_else(|e| format!("the library cannot serialise it either: {e}")))));
         };
-        if ls.len() > 2 || (ls.len() == 2 && ls[0] != ls[1]) {
+        let strip = |j: &J| match j {
+            J::Obj(m) => J::Obj(m.iter().filter(|(k, _)| !matches!(k.as_str(), "timestamp" | "metadata")).cloned().collect()),
+            other => other.clone(),
+        };
+        if sc.references.len() >= 2 {
+            // heard by several receivers: the copies may come out as one record or as several; all show the same fields
+            if ls.iter().any(|l| strip(l) != strip(&ls[0])) {
+                return Err(fail("records-of-one-frame-differ", format!("frame {h}: the records printed for it do not show the same fields")));
+            }
+        } else if ls.len() > 2 || (ls.len() == 2 && ls[0] != ls[1]) {
             return Err(fail("record-printed-more-than-once", format!("{} different lines for frame {h} on stdout and in the --output file", ls.len())));
         }
         let want = jsonck::parse(&serde_json::to_string(&m).map_err(|e| fail("library-cannot-serialise", e.to_string()))?).map_err(|e| fail("library-malformed", e))?;
@@ -380,9 +392,47 @@ pub fn replay_e2e(ctx: &Ctx, env: &crate::e2e::Env, sc: &crate::e2e::Scenario, r
             }
         }
     }
+    for (a, raw) in &out.tracks_raw {
+        jsonck::parse(raw).map_err(|e| fail("track-malformed", format!("/track?icao24={a:06x}: {e}: {}", raw.chars().take(600).collect::<String>())))?;
+    }
     ctx.class("end-to-end batch judged");
     ctx.nontrivial(h64(&("e2e", rep.to_string())));
     Ok(())
+}
+
+/// The longest records: the Comm-B replies (of 200 000 generated ones) whose JSON is longest, each heard by two
+/// receivers (their receptions are merged into one record, which makes it longer still). Every frame must be printed at
+/// least once, each time as one well-formed line with every decoded field.
+pub fn check_e2e_long(ctx: &Ctx, env: &crate::e2e::Env) -> Check {
+    ctx.eval();
+    let mut best: Vec<(usize, Vec<u8>)> = (0..200_000u64)
+        .into_par_iter()
+        .filter_map(|i| {
+            let mut r = SplitMix::new(h64(&(ctx.seed, "c07-long", i)));
+            let mut mb = [0u8; 7];
+            for (k, b) in mb.iter_mut().enumerate() {
+                // sparse payloads pass more register hypotheses at once
+                *b = if (r.next() >> 7) % 3 == 0 { r.next() as u8 } else if k < 3 { (r.next() as u8) & (r.next() as u8) } else { 0 };
+            }
+            let f = if i % 2 == 0 { vcore::enc::df20(0, 0, 0, vcore::enc::ac13_q(1400), &mb, 0x4840d6 + (i as u32 % 7)) } else { vcore::enc::df21(0, 0, 0, vcore::enc::id13(1, 2, 3, 4), &mb, 0x4840d6 + (i as u32 % 7)) };
+            let m = Message::try_from(f.as_slice()).ok()?;
+            Some((serde_json::to_string(&m).ok()?.len(), f))
+        })
+        .collect();
+    best.sort_by(|a, b| b.0.cmp(&a.0).then(a.1.cmp(&b.1)));
+    best.dedup_by(|a, b| a.1 == b.1);
+    let mut frames: Vec<Vec<u8>> = best.into_iter().take(24).map(|x| x.1).collect();
+    frames.push(vcore::enc::df20(0, 0, 0, vcore::enc::ac13_q(1400), &[0x9b, 0x7d, 0xfe, 0, 0, 0, 0], 0x4840d6));
+    let longest = frames.first().and_then(|f| Message::try_from(f.as_slice()).ok()).and_then(|m| serde_json::to_string(&m).ok()).map(|s| s.len()).unwrap_or(0);
+    ctx.set_extra("longest_message_json_bytes", json!(longest));
+    let mut sends = vec![];
+    for (i, f) in frames.iter().enumerate() {
+        sends.push(crate::e2e::Send { source: 0, frame: f.clone(), pause_ms: 0, cut: 0, clock_offset_s: None });
+        sends.push(crate::e2e::Send { source: 1, frame: f.clone(), pause_ms: 2 + (i % 3) as u32, cut: 0, clock_offset_s: None });
+    }
+    let sc = crate::e2e::Scenario { references: vec![Some((48.0, 7.0)), None], sends, dedup_ms: 200, with_file: true, ..Default::default() };
+    let rep = json!({"kind": "e2e", "scenario": crate::e2e::scenario_json(&sc), "two_sources": true});
+    replay_e2e(ctx, env, &sc, &rep, "c07-long")
 }
 
 /// The JSON a consumer sees for one input: the serialised timed record, or why there is none.
